@@ -33,6 +33,8 @@ checks = {
          "stale files, working directories and other processes have no encoding here; map ranges in codegen that need go/types objects are read, not executed"),
  "C15": ("rang3 Contains/Intersects/Touches/Compare/Flatten/Subtract/Normalize (with container/heap, slices.SortFunc, stack) executed on arbitrary ranges 0<=B<=E<=U+10FFFF and an arbitrary probe code point: set-theoretic membership, sortedness, exact-union and pairwise-disjointness assertions decided for all values. k<=3 (Flatten), 2x2 (Subtract), k<=2 (Normalize) quick; 4, 3x3, 3 thorough.",
          "sort.Slice modelled as insertion sort calling the real less; list lengths bounded"),
+ "C17": ("the real ParseLox on templates whose holes are names and range ends: a two-byte token name (letters, digits, underscore) in the default mode / inside a mode / in a second file — accepted iff it obeys the documented naming rules and is unique across tokens, macros, modes and rules; [lo-hi] in a token, a macro and a negated difference inside a mode — accepted iff lo <= hi; a two-byte name in @emit( ), @push_mode( ), a macro reference and a parser term — accepted iff something of the right kind is defined (tokens incl. @external, rules, modes, macros). On every rejection a printed diagnostic must be positioned on the line of the faulty declaration.",
+         "predicate written from the documentation; position checked at line granularity; macro cycles, @start multiplicity and action multiplicity are not in the catalogue"),
  "C18": ("by reduction, not by exploring schedules: two instances (parsers of 9 items incl. error recovery and _onBounds variants, lexers of 4 items) run one after the other inside one symbolic execution under a memory monitor (every cell read, written, appended to or copied, every map touched); asserted: no cell written by one instance is touched by the other, no write reaches a cell reachable from package-level variables, and a third fresh instance reproduces the first one's result. Counterexamples are replayed natively with the two instances on two goroutines under go test -race.",
          "disjoint footprints + read-only globals => race-free and sequentially equivalent is a meta-argument from the Go memory model; two instances only; second instance on a fixed input"),
  "C19": ("_TokenToString executed on a symbolic int for 8 numbering items (modes, @external, @emit-only tokens, two files, tokens the parser never mentions): name of terminal t for every declared constant, \"???\" for every other int value; EOF=0, ERROR=1 and dense declaration order are read back from the generated constants (concrete precondition); the lexer and parser differentials on the same items refer to token kinds only through the generated constants' names, so a table keyed by other numbers shows up as a mismatch.",
@@ -44,7 +46,7 @@ checks = {
 not_applicable = {
  "C14": "byte-for-byte comparison of one concrete computation with files on disk; no input a solver could range over (DESIGN.md section 5)",
 }
-pending = ["C06","C17"]
+pending = ["C06"]
 
 def main():
     m = {
